@@ -198,3 +198,14 @@ fn c12_f32_rejects_f64() {
     assert!(d.position() <= buf.len());
     kani::cover!(true);
 }
+
+// std-only fixed-shape types (net addresses): symbolic bytes behind the expected header
+// @harness name=c02_ipv4 props=C02 kind=complete features=std
+#[cfg(feature = "std")]
+total!(c02_ipv4, std::net::Ipv4Addr, 8, [], 6);
+// @harness name=c02_ipaddr props=C02 kind=complete features=std tier=thorough
+#[cfg(feature = "std")]
+total!(c02_ipaddr, std::net::IpAddr, 10, [0x82], 6);
+// @harness name=c02_ipv6 props=C02 kind=complete features=std
+#[cfg(feature = "std")]
+total!(c02_ipv6, std::net::Ipv6Addr, 20, [], 18);
